@@ -17,7 +17,7 @@ use serde_json::{json, Value};
 use std::collections::{BTreeMap, BTreeSet};
 use std::io::Write;
 use std::path::{Path, PathBuf};
-use std::sync::Mutex;
+use std::__real::sync::Mutex;
 
 static LOGBUF: Mutex<String> = Mutex::new(String::new());
 
@@ -41,11 +41,11 @@ fn init_logger() {
 
 /// Worker processes run their executions inline (a forked child per execution costs more than the execution itself): before
 /// each one they record the schedule in flight, so that the root can name it if the execution ends the whole worker.
-static INLINE: std::sync::atomic::AtomicBool = std::sync::atomic::AtomicBool::new(false);
+static INLINE: std::__real::sync::atomic::AtomicBool = std::__real::sync::atomic::AtomicBool::new(false);
 static IN_FLIGHT: Mutex<Option<PathBuf>> = Mutex::new(None);
 
 /// csvdump runs carry --verify when the world starts with the coin's real genesis block (set by the callers).
-static VERIFY: std::sync::atomic::AtomicBool = std::sync::atomic::AtomicBool::new(false);
+static VERIFY: std::__real::sync::atomic::AtomicBool = std::__real::sync::atomic::AtomicBool::new(false);
 
 /// One complete in-process run under the controlled scheduler.
 fn run_once(data: &Path, dump: &Path, coin_name: &str, cb: &str, prefix: &[usize]) -> (RunResult, sched::Outcome) {
@@ -79,7 +79,7 @@ fn run_once_policy(data: &Path, dump: &Path, coin_name: &str, cb: &str, prefix: 
     }
     if pid == 0 {
         let (r, o) = run_inline(data, dump, coin_name, cb, prefix, workers, policy);
-        let doc = json!({"code": r.code, "stdout": r.stdout, "stderr": r.stderr, "choices": o.choices, "order": o.order, "regions": o.regions, "tasks": o.tasks, "diverged": o.diverged});
+        let doc = json!({"code": r.code, "stdout": r.stdout, "stderr": r.stderr, "choices": o.choices, "order": o.order, "regions": o.regions, "tasks": o.tasks, "diverged": o.diverged, "sync_points": o.sync_points, "preemptions": o.preemptions});
         let _ = std::fs::write(&out_path, doc.to_string());
         unsafe { libc::_exit(0) };
     }
@@ -116,13 +116,13 @@ fn run_once_policy(data: &Path, dump: &Path, coin_name: &str, cb: &str, prefix: 
     if libc::WIFEXITED(status) && libc::WEXITSTATUS(status) == 0 {
         if let Ok(doc) = std::fs::read_to_string(&out_path).map_err(|e| e.to_string()).and_then(|t| serde_json::from_str::<Value>(&t).map_err(|e| e.to_string())) {
             let r = RunResult { code: doc["code"].as_i64().map(|c| c as i32), signal: None, stdout: doc["stdout"].as_str().unwrap_or("").to_string(), stderr: doc["stderr"].as_str().unwrap_or("").to_string(), files };
-            let o = sched::Outcome { choices: serde_json::from_value(doc["choices"].clone()).unwrap_or_default(), order: serde_json::from_value(doc["order"].clone()).unwrap_or_default(), regions: doc["regions"].as_u64().unwrap_or(0), tasks: doc["tasks"].as_u64().unwrap_or(0), diverged: doc["diverged"].as_str().map(|s| s.to_string()) };
+            let o = sched::Outcome { choices: serde_json::from_value(doc["choices"].clone()).unwrap_or_default(), order: serde_json::from_value(doc["order"].clone()).unwrap_or_default(), regions: doc["regions"].as_u64().unwrap_or(0), tasks: doc["tasks"].as_u64().unwrap_or(0), diverged: doc["diverged"].as_str().map(|s| s.to_string()), sync_points: doc["sync_points"].as_u64().unwrap_or(0), preemptions: doc["preemptions"].as_u64().unwrap_or(0) as usize };
             return (r, o);
         }
     }
     // the execution ended the process itself (exit / abort / signal) before it could report
     let (code, signal) = if libc::WIFEXITED(status) { (Some(libc::WEXITSTATUS(status)), None) } else { (None, Some(libc::WTERMSIG(status))) };
-    (RunResult { code, signal, stdout: String::new(), stderr: format!("the execution terminated the process: exit {:?} signal {:?}", code, signal), files }, sched::Outcome { choices: vec![], order: vec![], regions: 0, tasks: 0, diverged: None })
+    (RunResult { code, signal, stdout: String::new(), stderr: format!("the execution terminated the process: exit {:?} signal {:?}", code, signal), files }, sched::Outcome { choices: vec![], order: vec![], regions: 0, tasks: 0, diverged: None, sync_points: 0, preemptions: 0 })
 }
 
 fn run_inline(data: &Path, dump: &Path, coin_name: &str, cb: &str, prefix: &[usize], workers: usize, policy: usize) -> (RunResult, sched::Outcome) {
@@ -158,7 +158,7 @@ fn run_inline(data: &Path, dump: &Path, coin_name: &str, cb: &str, prefix: &[usi
         sched::run(prefix, body)
     } else {
         let (r, o) = rayon::pool::run_policy(prefix, workers, policy, body);
-        (r, sched::Outcome { choices: o.choices, order: o.trace.iter().flat_map(|(t, w)| [*t, *w]).collect(), regions: 0, tasks: 0, diverged: o.diverged })
+        (r, sched::Outcome { choices: o.choices, order: o.trace.iter().flat_map(|(t, w)| [*t, *w]).collect(), regions: 0, tasks: 0, diverged: o.diverged, sync_points: 0, preemptions: 0 })
     };
     let _ = std::io::stdout().flush();
     unsafe {
@@ -201,14 +201,22 @@ fn build_world(w: &WorldSpec) -> ChainBuilder {
         for (ti, n_out) in blk.iter().enumerate() {
             let outs: Vec<TxOut> = (0..*n_out).map(|k| out(k + ti)).collect();
             if ti == 0 {
-                let outs = if w.name.contains("same script") { (0..*n_out).map(|k| TxOut { value: 5 + k as u64, script: script::p2pkh(&script::h20(7)) }).collect() } else { outs };
+                let outs = if w.name.contains("same script") {
+                    (0..*n_out).map(|k| TxOut { value: 5 + k as u64, script: script::p2pkh(&script::h20(7)) }).collect()
+                } else if w.name.contains("A B A") {
+                    // scripts repeat with another one in between (and the two kinds differ in type: P2PKH / P2SH of one hash)
+                    (0..*n_out).map(|k| TxOut { value: 5 + k as u64, script: if k % 2 == 0 { script::p2pkh(&script::h20(7)) } else { script::p2sh(&script::h20(7)) } }).collect()
+                } else {
+                    outs
+                };
                 txs.push(coinbase(h, 9, outs));
             } else {
                 // all non-coinbase transactions of a block have the SAME serialised size and the SAME total value, both larger
                 // than the coinbase's: "first one on ties" figures (biggest value / size tx) depend on the order of evaluation
                 // if anything about them is computed inside a parallel region
                 let same = w.name.contains("same script");
-                let outs2: Vec<TxOut> = (0..*n_out).map(|k| TxOut { value: 60 * COIN_VALUE + k as u64, script: script::p2pkh(&script::h20(if same { 7 } else { ti as u8 * 16 + k as u8 })) }).collect();
+                let aba = w.name.contains("A B A");
+                let outs2: Vec<TxOut> = (0..*n_out).map(|k| TxOut { value: 60 * COIN_VALUE + k as u64, script: if aba && (k + ti) % 2 == 1 { script::p2sh(&script::h20(7)) } else { script::p2pkh(&script::h20(if same || aba { 7 } else { ti as u8 * 16 + k as u8 })) } }).collect();
                 txs.push(Tx { version: 1, segwit: false, inputs: (0..4).map(|j| TxIn::spend([0xe0 + ti as u8; 32], j)).collect(), outputs: outs2, locktime: 0, wide: 0 });
                 let _ = outs;
             }
@@ -235,8 +243,9 @@ fn scratch() -> PathBuf {
     refmodel::world::scratch_root()
 }
 
-fn explore_subtree(data: &Path, dump: &Path, w: &WorldSpec, cb: &str, roots: &[Vec<usize>], baseline: &Value, stats: &mut Value) {
+fn explore_subtree(data: &Path, dump: &Path, w: &WorldSpec, cb: &str, roots: &[Vec<usize>], baseline: &Value, stats: &mut Value, deadline: Option<std::time::Instant>) {
     let mut stack: Vec<Vec<usize>> = roots.iter().rev().cloned().collect();
+    let (mut sync_points, mut preempted, mut capped) = (0u64, 0u64, false);
     let mut schedules = 0u64;
     let mut orders: BTreeSet<[u8; 8]> = BTreeSet::new();
     let mut outcomes: BTreeMap<String, u64> = BTreeMap::new();
@@ -244,8 +253,16 @@ fn explore_subtree(data: &Path, dump: &Path, w: &WorldSpec, cb: &str, roots: &[V
     let mut diverged = 0u64;
     let mut max_cp = 0usize;
     while let Some(prefix) = stack.pop() {
+        if deadline.map(|d| std::time::Instant::now() > d).unwrap_or(false) || (deadline.is_some() && violation.is_some()) {
+            capped = violation.is_none();
+            break;
+        }
         let (r, oc) = run_once(data, dump, w.coin, cb, &prefix);
         schedules += 1;
+        sync_points += oc.sync_points;
+        if oc.preemptions > 0 {
+            preempted += 1;
+        }
         if oc.diverged.is_some() {
             diverged += 1;
         }
@@ -266,16 +283,21 @@ fn explore_subtree(data: &Path, dump: &Path, w: &WorldSpec, cb: &str, roots: &[V
             }
         }
     }
-    *stats = json!({"schedules": schedules, "distinct_orders": orders.len(), "outcomes": outcomes, "violation": violation, "diverged": diverged, "max_choice_points": max_cp});
+    *stats = json!({"schedules": schedules, "distinct_orders": orders.len(), "outcomes": outcomes, "violation": violation, "diverged": diverged, "max_choice_points": max_cp, "sync_points": sync_points, "schedules_with_preemption": preempted, "capped": capped});
 }
 
 fn worker(spec_path: &str, out_path: &str) {
     init_logger();
-    INLINE.store(true, std::sync::atomic::Ordering::SeqCst);
+    let spec_bound = serde_json::from_str::<Value>(&std::fs::read_to_string(spec_path).unwrap()).unwrap()["preemption_bound"].as_u64().unwrap_or(0);
+    // with pre-emption inside closures every execution gets a process of its own: process-wide state of the subject (a memo in a
+    // static, say) must not be carried from one execution into the next - the scheduling points met would depend on it
+    INLINE.store(spec_bound == 0, std::sync::atomic::Ordering::SeqCst);
     *IN_FLIGHT.lock().unwrap() = Some(PathBuf::from(format!("{}.inflight", out_path)));
     VERIFY.store(true, std::sync::atomic::Ordering::SeqCst);
     let spec: Value = serde_json::from_str(&std::fs::read_to_string(spec_path).unwrap()).unwrap();
     let w = WorldSpec { name: spec["name"].as_str().unwrap().into(), coin: coin(spec["coin"].as_str().unwrap()).name, blocks: serde_json::from_value(spec["blocks"].clone()).unwrap() };
+    sched::set_preemption_bound(spec["preemption_bound"].as_u64().unwrap_or(0) as usize);
+    let deadline = spec["budget_ms"].as_u64().map(|ms| std::time::Instant::now() + std::time::Duration::from_millis(ms));
     let root = scratch();
     let data = root.join("data");
     refmodel::world::copy_dir(Path::new(spec["data"].as_str().unwrap()), &data).unwrap();
@@ -285,7 +307,7 @@ fn worker(spec_path: &str, out_path: &str) {
         let cb = job["callback"].as_str().unwrap();
         let roots: Vec<Vec<usize>> = serde_json::from_value(job["roots"].clone()).unwrap();
         let mut stats = json!({});
-        explore_subtree(&data, &dump, &w, cb, &roots, &job["baseline"], &mut stats);
+        explore_subtree(&data, &dump, &w, cb, &roots, &job["baseline"], &mut stats, deadline);
         results.insert(cb.to_string(), stats);
     }
     std::fs::write(out_path, serde_json::to_string(&Value::Object(results)).unwrap()).unwrap();
@@ -333,6 +355,333 @@ fn canary() -> usize {
     outcomes.len()
 }
 
+/// One world: baseline per callback (schedule [] twice, compared with the model as a note), then EVERY schedule reachable with
+/// at most `pbound` pre-emptions inside item closures (0 = closures atomic: the pure item-level schedule tree), split over
+/// worker processes. Returns the number of operations on intercepted std::sync primitives met (0 on code whose closures
+/// contain no synchronisation: then a larger bound adds no schedule). `budget_ms`: wall budget of the workers (None = run to
+/// completion); when it strikes the evidence says so (caps_hit) and what was covered is the DFS prefix.
+#[allow(clippy::too_many_arguments)]
+fn explore_world(rep: &mut Report, root: &Path, exe: &Path, tag: &str, w: &WorldSpec, cbs: &[&'static str], pbound: usize, budget_ms: Option<u64>, bound: &mut serde_json::Map<String, Value>, total_pred: &mut f64) -> u64 {
+    sched::set_preemption_bound(pbound);
+    let mut sync_points_seen = 0u64;
+    let sig = if pbound == 0 { "outcome-depends-on-schedule" } else { "outcome-depends-on-interleaving-inside-closures" };
+    let chain = build_world(w);
+    let cn = coin(w.coin);
+    let world = World::simple(cn, &chain.blocks, 0);
+    let wdir = root.join(tag);
+    let data = wdir.join("data");
+    if let Err(e) = world.materialise(&data) {
+        rep.machinery(format!("materialise: {}", e));
+        return 0;
+    }
+    let dump = wdir.join("dump");
+    let predicted: f64 = w.blocks.iter().map(|b| predicted_block(b)).product();
+    // baseline (schedule []) per callback, compared with the model; then split the tree two levels deep
+    let mut jobs: Vec<Value> = Vec::new();
+    let mut failed_baselines: Vec<(String, String)> = Vec::new();
+    for cb in cbs {
+        let (r, oc) = run_once(&data, &dump, w.coin, cb, &[]);
+        sync_points_seen += oc.sync_points;
+        if let Some(d) = &oc.diverged {
+            rep.machinery(format!("{} {}: baseline diverged: {}", w.name, cb, d));
+        }
+        let tip = w.blocks.len() as u64;
+        let range = chain.mblocks();
+        let bad = match *cb {
+            "csvdump" => check_csvdump(&r, cn, &range, 0, tip),
+            "unspentcsvdump" => check_unspent(&r, cn, &range, 0, tip),
+            "balances" => check_balances(&r, cn, &range, 0, tip),
+            "simplestats" => check_stats(&r, cn, &range),
+            _ => check_opreturn(&r, cn, &range),
+        };
+        if let Some((msig, _detail)) = bad.into_iter().next() {
+            // C13 is a relation between executions (all schedules agree); whether the common result is right is the
+            // business of C01/C07/C08/C15/C16. Recorded, not judged.
+            rep.count(&format!("note:schedule-0-differs-from-model:{}", msig), 1);
+        }
+        let baseline = observe(&r, &wdir);
+        if r.code != Some(0) {
+            // not necessarily the harness: a waiting task may make even schedule [] the odd one out. Judged below.
+            failed_baselines.push((cb.to_string(), r.stderr.chars().take(200).collect::<String>()));
+        }
+        // replay determinism: the same schedule twice must give identical observations
+        let (r2, _) = run_once(&data, &dump, w.coin, cb, &[]);
+        if observe(&r2, &wdir) != baseline {
+            rep.machinery(format!("{} {}: two executions of schedule [] differ (nondeterminism not owned)", w.name, cb));
+        }
+        // roots of disjoint subtrees: all one- and two-deviation prefixes of the first levels
+        let mut roots: Vec<Vec<usize>> = Vec::new();
+        let mut frontier: Vec<Vec<usize>> = vec![vec![]];
+        let mut singles = 1u64; // schedules executed here (the split nodes themselves)
+        for _level in 0..2 {
+            let mut next = Vec::new();
+            for p in &frontier {
+                let (rr, oc) = if p.is_empty() { (r.clone(), oc.clone()) } else { run_once(&data, &dump, w.coin, cb, p) };
+                if !p.is_empty() {
+                    singles += 1;
+                    if observe(&rr, &wdir) != baseline {
+                        rep.disagree(sig, format!("{} {} {}: schedule {:?} (execution order {:?}) gives a different result than schedule []", w.coin, w.name, cb, p, oc.order), json!({"kind": "schedule", "world": {"name": w.name, "coin": w.coin, "blocks": w.blocks}, "callback": cb, "schedule": p, "preemption_bound": pbound}));
+                    }
+                }
+                for i in p.len()..oc.choices.len() {
+                    for alt in 1..oc.choices[i].1 {
+                        let mut q: Vec<usize> = oc.choices[..i].iter().map(|c| c.0).collect();
+                        q.push(alt);
+                        next.push(q);
+                    }
+                }
+            }
+            frontier = next;
+            if frontier.len() >= 4 * threads() {
+                break;
+            }
+        }
+        roots.extend(frontier);
+        rep.transitions += singles;
+        rep.states += singles;
+        jobs.push(json!({"callback": cb, "roots": roots, "baseline": baseline}));
+    }
+    // farm out: split every job's roots round-robin over the workers
+    let nw = threads();
+    let mut children = Vec::new();
+    for k in 0..nw {
+        let myjobs: Vec<Value> = jobs
+            .iter()
+            .map(|j| {
+                let roots: Vec<Value> = j["roots"].as_array().unwrap().iter().enumerate().filter(|(i, _)| i % nw == k).map(|(_, r)| r.clone()).collect();
+                json!({"callback": j["callback"], "roots": roots, "baseline": j["baseline"]})
+            })
+            .filter(|j| !j["roots"].as_array().unwrap().is_empty())
+            .collect();
+        if myjobs.is_empty() {
+            continue;
+        }
+        let spec = json!({"name": w.name, "coin": w.coin, "blocks": w.blocks, "data": data.display().to_string(), "jobs": myjobs, "preemption_bound": pbound, "budget_ms": budget_ms});
+        let sp = wdir.join(format!("spec{}.json", k));
+        let op = wdir.join(format!("out{}.json", k));
+        std::fs::write(&sp, spec.to_string()).unwrap();
+        let child = std::process::Command::new(exe).arg("--worker").arg(&sp).arg(&op).stdout(std::process::Stdio::null()).spawn();
+        match child {
+            Ok(ch) => children.push((ch, op)),
+            Err(e) => rep.machinery(format!("spawn worker: {}", e)),
+        }
+    }
+    let mut per_cb: BTreeMap<String, (u64, u64, BTreeSet<String>)> = BTreeMap::new();
+    let (mut capped, mut with_preemption) = (false, 0u64);
+    let world_deadline = std::time::Instant::now() + std::time::Duration::from_secs(std::env::var("VERIF_SCHED_WORLD_LIMIT").ok().and_then(|v| v.parse().ok()).unwrap_or(1500));
+    for (mut ch, op) in children {
+        // wall cap inside the engine: a worker whose execution in flight never returns (a thread blocked, with the baton, on a
+        // primitive the scheduler does not own) is ended and reported as a machinery error naming that schedule - no verdict
+        let st = loop {
+            match ch.try_wait() {
+                Ok(Some(s)) => break Ok(s),
+                Ok(None) if std::time::Instant::now() > world_deadline => {
+                    let _ = ch.kill();
+                    let _ = ch.wait();
+                    let inflight = std::fs::read_to_string(format!("{}.inflight", op.display())).unwrap_or_default();
+                    rep.machinery(format!("{}: a worker did not finish within the wall cap; execution in flight: {} (blocked on a primitive the scheduler model does not own?)", w.name, inflight));
+                    break Err(std::io::Error::new(std::io::ErrorKind::TimedOut, "wall cap"));
+                }
+                Ok(None) => std::thread::sleep(std::time::Duration::from_millis(5)),
+                Err(e) => break Err(e),
+            }
+        };
+        if matches!(&st, Err(e) if e.kind() == std::io::ErrorKind::TimedOut) {
+            continue;
+        }
+        if !st.as_ref().map(|s| s.success()).unwrap_or(false) {
+            // the execution in flight ended the worker process (the driver's process::exit, an abort, a crash): that
+            // schedule's outcome is "the run terminated", which differs from schedule []'s
+            let inflight: Value = std::fs::read_to_string(format!("{}.inflight", op.display())).ok().and_then(|t| serde_json::from_str(&t).ok()).unwrap_or(json!(null));
+            if inflight.is_null() {
+                rep.machinery(format!("{}: worker failed before its first execution", w.name));
+            } else {
+                rep.disagree(sig, format!("{} {} {}: schedule {} ended the process ({:?}) while schedule [] ran to completion", w.coin, w.name, inflight["callback"].as_str().unwrap_or("?"), inflight["schedule"], st.map(|s| s.to_string()).unwrap_or_default()), json!({"kind": "schedule", "world": {"name": w.name, "coin": w.coin, "blocks": w.blocks}, "callback": inflight["callback"], "schedule": inflight["schedule"], "preemption_bound": pbound}));
+            }
+            continue;
+        }
+        let out: Value = serde_json::from_str(&std::fs::read_to_string(&op).unwrap_or_default()).unwrap_or(json!({}));
+        for (cb, s) in out.as_object().cloned().unwrap_or_default() {
+            let e = per_cb.entry(cb.clone()).or_insert((0, 0, BTreeSet::new()));
+            e.0 += s["schedules"].as_u64().unwrap_or(0);
+            e.1 += s["distinct_orders"].as_u64().unwrap_or(0);
+            for k in s["outcomes"].as_object().map(|o| o.keys().cloned().collect::<Vec<_>>()).unwrap_or_default() {
+                e.2.insert(k);
+            }
+            sync_points_seen += s["sync_points"].as_u64().unwrap_or(0);
+            with_preemption += s["schedules_with_preemption"].as_u64().unwrap_or(0);
+            capped |= s["capped"].as_bool().unwrap_or(false);
+            if s["diverged"].as_u64().unwrap_or(0) > 0 {
+                rep.machinery(format!("{} {}: {} replays diverged from their prefix", w.name, cb, s["diverged"]));
+            }
+            if !s["violation"].is_null() {
+                rep.disagree(sig, format!("{} {} {}: schedule {} (execution order {}) gives a different result than schedule []", w.coin, w.name, cb, s["violation"]["schedule"], s["violation"]["execution_order"]), json!({"kind": "schedule", "world": {"name": w.name, "coin": w.coin, "blocks": w.blocks}, "callback": cb, "schedule": s["violation"]["schedule"], "preemption_bound": pbound}));
+            }
+        }
+    }
+    for (cb, err) in &failed_baselines {
+        // every schedule failing in the same way is no statement about schedules: the world or the harness is broken
+        if per_cb.get(cb).map(|e| e.2.len() <= 1).unwrap_or(true) && !rep.disagreements.keys().any(|k| k.contains("outcome-depends-on-")) {
+            rep.machinery(format!("{} {}: every schedule failed: {}", w.name, cb, err));
+        }
+    }
+    let mut wsum = serde_json::Map::new();
+    for (cb, (n, orders, outs)) in &per_cb {
+        rep.states += n;
+        rep.transitions += n;
+        for i in 0..*orders {
+            rep.nontrivial.insert(h8(format!("{}{}{}{}", w.coin, w.name, cb, i).as_bytes()));
+        }
+        for o in outs {
+            rep.outcomes.insert(h8(format!("{}{}{}{}", w.coin, w.name, cb, o).as_bytes()));
+        }
+        wsum.insert(cb.clone(), json!({"schedules_in_subtrees": n, "distinct_execution_orders": orders, "distinct_outcomes": outs.len().max(1)}));
+    }
+    if capped {
+        rep.caps_hit.push(format!("{} '{}', pre-emption bound {}: wall budget of {} ms reached; the schedules covered are a DFS prefix of the bounded tree (bound {} was completed before)", w.coin, w.name, pbound, budget_ms.unwrap_or(0), pbound.saturating_sub(1)));
+    }
+    if pbound == 0 {
+        *total_pred += predicted * cbs.len() as f64;
+        bound.insert(format!("{}/{}", w.coin, w.name), json!({"predicted_schedules_per_callback": predicted, "callbacks": cbs, "measured": wsum}));
+    } else {
+        bound.insert(format!("{}/{}/preemption-bound-{}", w.coin, w.name, pbound), json!({"callbacks": cbs, "measured": wsum, "schedules_with_a_preemption_inside_a_closure": with_preemption, "sync_points_met": sync_points_seen, "completed": !capped}));
+    }
+    if rep.samples.len() < 3 {
+        rep.sample(json!({"world": w.name, "coin": w.coin, "outputs_per_tx_per_block": w.blocks, "example_schedule": [0, 1, 0, 2], "meaning": "alternative taken at each choice point among the runnable items (sorted by creation order)"}));
+    }
+    let _ = std::fs::remove_dir_all(&wdir);
+    sched::set_preemption_bound(0);
+    sync_points_seen
+}
+
+/// Vacuity checks of the interception (mc/verif-std): the closures below use `std::sync` exactly as the subject's sources
+/// would (this module is compiled inside the same crate, so `std::` resolves to the same wrappers).
+/// (1) lost update: two items do load-then-store on one AtomicUsize - with closures atomic (bound 0) the final value is
+/// always 2, with one pre-emption allowed the value 1 must show up as well. (2) torn check-then-act over two separately
+/// locked mutexes (the shape of a shared memo): more than one outcome only under pre-emption.
+fn sync_canaries() -> Result<(u64, Vec<usize>), String> {
+    use rayon::iter::IntoParallelIterator;
+    use std::sync::atomic::{AtomicUsize, Ordering};
+    let mut seen: Vec<usize> = Vec::new();
+    let mut n = 0u64;
+    for pb in [0usize, 1, 2] {
+        sched::set_preemption_bound(pb);
+        let mut outcomes: BTreeSet<(usize, Vec<u32>)> = BTreeSet::new();
+        let mut stack: Vec<Vec<usize>> = vec![vec![]];
+        let mut sync_points = 0;
+        while let Some(prefix) = stack.pop() {
+            let (v, oc) = sched::run(&prefix, || {
+                let counter = AtomicUsize::new(0);
+                let slot: std::sync::Mutex<Option<u32>> = std::sync::Mutex::new(None);
+                let flag: std::sync::Mutex<bool> = std::sync::Mutex::new(false);
+                let r: Vec<u32> = vec![1u32, 2].into_par_iter().map(|x| {
+                    let v = counter.load(Ordering::SeqCst);
+                    counter.store(v + 1, Ordering::SeqCst);
+                    // check-then-act across two locks
+                    let set = *flag.lock().unwrap();
+                    if set {
+                        slot.lock().unwrap().unwrap_or(0)
+                    } else {
+                        *slot.lock().unwrap() = Some(x);
+                        *flag.lock().unwrap() = true;
+                        x
+                    }
+                }).collect();
+                (counter.load(Ordering::SeqCst), r)
+            });
+            n += 1;
+            sync_points += oc.sync_points;
+            if let Some(d) = oc.diverged {
+                sched::set_preemption_bound(0);
+                return Err(format!("sync canary: replay diverged: {}", d));
+            }
+            outcomes.insert(v);
+            for i in prefix.len()..oc.choices.len() {
+                for alt in 1..oc.choices[i].1 {
+                    let mut p: Vec<usize> = oc.choices[..i].iter().map(|c| c.0).collect();
+                    p.push(alt);
+                    stack.push(p);
+                }
+            }
+        }
+        if sync_points == 0 {
+            sched::set_preemption_bound(0);
+            return Err("sync canary: no operation on std::sync primitives was intercepted".into());
+        }
+        seen.push(outcomes.len());
+        let lost = outcomes.iter().any(|(c, _)| *c == 1);
+        if (pb == 0 && (lost || outcomes.len() != 2)) || (pb >= 1 && !lost) {
+            sched::set_preemption_bound(0);
+            return Err(format!("sync canary: pre-emption bound {}: outcomes {:?} (bound 0 must give exactly the two item orders without a lost update, bound >= 1 must show the lost update)", pb, outcomes));
+        }
+    }
+    sched::set_preemption_bound(0);
+    if !(seen[1] > seen[0] && seen[2] >= seen[1]) {
+        return Err(format!("sync canary: number of outcomes per bound {:?} does not grow", seen));
+    }
+    Ok((n, seen))
+}
+
+/// Interleavings INSIDE item closures, bounded by the number of pre-emptions (iterative context bounding: bound 0 above is the
+/// complete item-level tree; here bounds 1, 2 (thorough 3) on the small worlds). The scheduling points are the operations on
+/// std::sync::{Mutex, RwLock, atomic::*} of the subject's own sources. On sources whose closures contain no such
+/// operation (the pinned tree) every bound gives the same tree as bound 0 and this part only says so.
+fn sync_part(rep: &mut Report, root: &Path, exe: &Path, sync_seen_at_bound_0: u64, bound: &mut serde_json::Map<String, Value>) {
+    if !cfg!(feature = "intercept") {
+        rep.count("sync_interception_available", 0);
+        rep.not_covered.push("interleavings inside item closures: the harness was built WITHOUT the std::sync wrappers (the build with them failed on this tree - it uses a part of std::sync the wrappers do not offer); closures are atomic in this run".into());
+        return;
+    }
+    rep.count("sync_interception_available", 1);
+    match sync_canaries() {
+        Ok((n, seen)) => {
+            rep.count("sync_canary_schedules", n);
+            rep.count("sync_canary_outcomes_bound0", seen[0] as u64);
+            rep.count("sync_canary_outcomes_bound1", seen[1] as u64);
+            rep.count("sync_canary_outcomes_bound2", seen[2] as u64);
+        }
+        Err(e) => {
+            rep.machinery(e);
+            return;
+        }
+    }
+    rep.count("sync_points_met_at_bound_0", sync_seen_at_bound_0);
+    // worlds for the bounded phases: few items, scripts that repeat (shared memo / cache shapes), both evaluators
+    let mut worlds: Vec<WorldSpec> = Vec::new();
+    for cn in ["bitcoin", "litecoin"] {
+        worlds.push(WorldSpec { name: "1tx x 3out, scripts A B A".into(), coin: cn, blocks: vec![vec![3]] });
+        worlds.push(WorldSpec { name: "2tx x 2out, scripts A B A".into(), coin: cn, blocks: vec![vec![2, 2]] });
+    }
+    let cbs: Vec<&'static str> = vec!["csvdump", "simplestats"];
+    let mut total = 0f64;
+    // do these worlds meet synchronisation at all? (bound 0 on them is part of the answer and cheap: 6 + 280 schedules)
+    let mut seen = sync_seen_at_bound_0;
+    for (i, w) in worlds.iter().enumerate() {
+        seen += explore_world(rep, root, exe, &format!("sync{}b0", i), w, &cbs, 0, None, bound, &mut total);
+    }
+    rep.count("sync_points_met_in_the_small_worlds_at_bound_0", seen - sync_seen_at_bound_0);
+    if seen == 0 {
+        bound.insert("preemption_bounded_phases".into(), json!("not needed on this tree: no item closure performed an operation on std::sync::{Mutex, RwLock, atomic::*} in any schedule, so pre-emption inside closures adds no schedule to the item-level trees above (which are complete)"));
+        return;
+    }
+    let max_bound = if is_thorough() { 3 } else { 2 };
+    let budget_ms: u64 = std::env::var("VERIF_SYNC_BUDGET_MS").ok().and_then(|v| v.parse().ok()).unwrap_or(if is_thorough() { 240_000 } else { 12_000 });
+    let mut completed = 0usize;
+    'bounds: for pb in 1..=max_bound {
+        let caps_before = rep.caps_hit.len();
+        for (i, w) in worlds.iter().enumerate() {
+            explore_world(rep, root, exe, &format!("sync{}b{}", i, pb), w, &cbs, pb, Some(budget_ms), bound, &mut total);
+            if rep.disagreements.keys().any(|k| k.contains("interleaving-inside-closures")) {
+                break 'bounds;
+            }
+        }
+        if rep.caps_hit.len() == caps_before {
+            completed = pb;
+        }
+    }
+    rep.count("preemption_bound_completed_on_all_small_worlds", completed as u64);
+}
+
 fn c13() -> Report {
     let mut rep = Report::new("C13", "e3b");
     let thorough = is_thorough();
@@ -365,187 +714,23 @@ fn c13() -> Report {
     let exe = std::env::current_exe().unwrap();
     let mut total_pred = 0f64;
     let mut bound = serde_json::Map::new();
+    let mut sync_seen = 0u64;
+    let t_phase = std::time::Instant::now();
     for (wi, (w, cbs)) in worlds.iter().enumerate() {
-        let chain = build_world(w);
-        let cn = coin(w.coin);
-        let world = World::simple(cn, &chain.blocks, 0);
-        let wdir = root.join(format!("world{}", wi));
-        let data = wdir.join("data");
-        if let Err(e) = world.materialise(&data) {
-            rep.machinery(format!("materialise: {}", e));
-            continue;
-        }
-        let dump = wdir.join("dump");
-        let predicted: f64 = w.blocks.iter().map(|b| predicted_block(b)).product();
-        // baseline (schedule []) per callback, compared with the model; then split the tree two levels deep
-        let mut jobs: Vec<Value> = Vec::new();
-        let mut failed_baselines: Vec<(String, String)> = Vec::new();
-        for cb in cbs {
-            let (r, oc) = run_once(&data, &dump, w.coin, cb, &[]);
-            if let Some(d) = &oc.diverged {
-                rep.machinery(format!("{} {}: baseline diverged: {}", w.name, cb, d));
-            }
-            let tip = w.blocks.len() as u64;
-            let range = chain.mblocks();
-            let bad = match *cb {
-                "csvdump" => check_csvdump(&r, cn, &range, 0, tip),
-                "unspentcsvdump" => check_unspent(&r, cn, &range, 0, tip),
-                "balances" => check_balances(&r, cn, &range, 0, tip),
-                "simplestats" => check_stats(&r, cn, &range),
-                _ => check_opreturn(&r, cn, &range),
-            };
-            if let Some((sig, _detail)) = bad.into_iter().next() {
-                // C13 is a relation between executions (all schedules agree); whether the common result is right is the
-                // business of C01/C07/C08/C15/C16. Recorded, not judged.
-                rep.count(&format!("note:schedule-0-differs-from-model:{}", sig), 1);
-            }
-            let baseline = observe(&r, &wdir);
-            if r.code != Some(0) {
-                // not necessarily the harness: a waiting task may make even schedule [] the odd one out. Judged below.
-                failed_baselines.push((cb.to_string(), r.stderr.chars().take(200).collect::<String>()));
-            }
-            // replay determinism: the same schedule twice must give identical observations
-            let (r2, _) = run_once(&data, &dump, w.coin, cb, &[]);
-            if observe(&r2, &wdir) != baseline {
-                rep.machinery(format!("{} {}: two executions of schedule [] differ (nondeterminism not owned)", w.name, cb));
-            }
-            // roots of disjoint subtrees: all one- and two-deviation prefixes of the first levels
-            let mut roots: Vec<Vec<usize>> = Vec::new();
-            let mut frontier: Vec<Vec<usize>> = vec![vec![]];
-            let mut singles = 1u64; // schedules executed here (the split nodes themselves)
-            for _level in 0..2 {
-                let mut next = Vec::new();
-                for p in &frontier {
-                    let (rr, oc) = if p.is_empty() { (r.clone(), oc.clone()) } else { run_once(&data, &dump, w.coin, cb, p) };
-                    if !p.is_empty() {
-                        singles += 1;
-                        if observe(&rr, &wdir) != baseline {
-                            rep.disagree("outcome-depends-on-schedule", format!("{} {} {}: schedule {:?} (execution order {:?}) gives a different result than schedule []", w.coin, w.name, cb, p, oc.order), json!({"kind": "schedule", "world": {"name": w.name, "coin": w.coin, "blocks": w.blocks}, "callback": cb, "schedule": p}));
-                        }
-                    }
-                    for i in p.len()..oc.choices.len() {
-                        for alt in 1..oc.choices[i].1 {
-                            let mut q: Vec<usize> = oc.choices[..i].iter().map(|c| c.0).collect();
-                            q.push(alt);
-                            next.push(q);
-                        }
-                    }
-                }
-                frontier = next;
-                if frontier.len() >= 4 * threads() {
-                    break;
-                }
-            }
-            roots.extend(frontier);
-            rep.transitions += singles;
-            rep.states += singles;
-            jobs.push(json!({"callback": cb, "roots": roots, "baseline": baseline}));
-        }
-        // farm out: split every job's roots round-robin over the workers
-        let nw = threads();
-        let mut children = Vec::new();
-        for k in 0..nw {
-            let myjobs: Vec<Value> = jobs
-                .iter()
-                .map(|j| {
-                    let roots: Vec<Value> = j["roots"].as_array().unwrap().iter().enumerate().filter(|(i, _)| i % nw == k).map(|(_, r)| r.clone()).collect();
-                    json!({"callback": j["callback"], "roots": roots, "baseline": j["baseline"]})
-                })
-                .filter(|j| !j["roots"].as_array().unwrap().is_empty())
-                .collect();
-            if myjobs.is_empty() {
-                continue;
-            }
-            let spec = json!({"name": w.name, "coin": w.coin, "blocks": w.blocks, "data": data.display().to_string(), "jobs": myjobs});
-            let sp = wdir.join(format!("spec{}.json", k));
-            let op = wdir.join(format!("out{}.json", k));
-            std::fs::write(&sp, spec.to_string()).unwrap();
-            let child = std::process::Command::new(&exe).arg("--worker").arg(&sp).arg(&op).stdout(std::process::Stdio::null()).spawn();
-            match child {
-                Ok(ch) => children.push((ch, op)),
-                Err(e) => rep.machinery(format!("spawn worker: {}", e)),
-            }
-        }
-        let mut per_cb: BTreeMap<String, (u64, u64, BTreeSet<String>)> = BTreeMap::new();
-        let world_deadline = std::time::Instant::now() + std::time::Duration::from_secs(std::env::var("VERIF_SCHED_WORLD_LIMIT").ok().and_then(|v| v.parse().ok()).unwrap_or(1500));
-        for (mut ch, op) in children {
-            // wall cap inside the engine: a worker whose execution in flight never returns (a thread blocked, with the baton, on a
-            // primitive the scheduler does not own) is ended and reported as a machinery error naming that schedule - no verdict
-            let st = loop {
-                match ch.try_wait() {
-                    Ok(Some(s)) => break Ok(s),
-                    Ok(None) if std::time::Instant::now() > world_deadline => {
-                        let _ = ch.kill();
-                        let _ = ch.wait();
-                        let inflight = std::fs::read_to_string(format!("{}.inflight", op.display())).unwrap_or_default();
-                        rep.machinery(format!("{}: a worker did not finish within the wall cap; execution in flight: {} (blocked on a primitive the scheduler model does not own?)", w.name, inflight));
-                        break Err(std::io::Error::new(std::io::ErrorKind::TimedOut, "wall cap"));
-                    }
-                    Ok(None) => std::thread::sleep(std::time::Duration::from_millis(5)),
-                    Err(e) => break Err(e),
-                }
-            };
-            if matches!(&st, Err(e) if e.kind() == std::io::ErrorKind::TimedOut) {
-                continue;
-            }
-            if !st.as_ref().map(|s| s.success()).unwrap_or(false) {
-                // the execution in flight ended the worker process (the driver's process::exit, an abort, a crash): that
-                // schedule's outcome is "the run terminated", which differs from schedule []'s
-                let inflight: Value = std::fs::read_to_string(format!("{}.inflight", op.display())).ok().and_then(|t| serde_json::from_str(&t).ok()).unwrap_or(json!(null));
-                if inflight.is_null() {
-                    rep.machinery(format!("{}: worker failed before its first execution", w.name));
-                } else {
-                    rep.disagree("outcome-depends-on-schedule", format!("{} {} {}: schedule {} ended the process ({:?}) while schedule [] ran to completion", w.coin, w.name, inflight["callback"].as_str().unwrap_or("?"), inflight["schedule"], st.map(|s| s.to_string()).unwrap_or_default()), json!({"kind": "schedule", "world": {"name": w.name, "coin": w.coin, "blocks": w.blocks}, "callback": inflight["callback"], "schedule": inflight["schedule"]}));
-                }
-                continue;
-            }
-            let out: Value = serde_json::from_str(&std::fs::read_to_string(&op).unwrap_or_default()).unwrap_or(json!({}));
-            for (cb, s) in out.as_object().cloned().unwrap_or_default() {
-                let e = per_cb.entry(cb.clone()).or_insert((0, 0, BTreeSet::new()));
-                e.0 += s["schedules"].as_u64().unwrap_or(0);
-                e.1 += s["distinct_orders"].as_u64().unwrap_or(0);
-                for k in s["outcomes"].as_object().map(|o| o.keys().cloned().collect::<Vec<_>>()).unwrap_or_default() {
-                    e.2.insert(k);
-                }
-                if s["diverged"].as_u64().unwrap_or(0) > 0 {
-                    rep.machinery(format!("{} {}: {} replays diverged from their prefix", w.name, cb, s["diverged"]));
-                }
-                if !s["violation"].is_null() {
-                    rep.disagree("outcome-depends-on-schedule", format!("{} {} {}: schedule {} (execution order {}) gives a different result than schedule []", w.coin, w.name, cb, s["violation"]["schedule"], s["violation"]["execution_order"]), json!({"kind": "schedule", "world": {"name": w.name, "coin": w.coin, "blocks": w.blocks}, "callback": cb, "schedule": s["violation"]["schedule"]}));
-                }
-            }
-        }
-        for (cb, err) in &failed_baselines {
-            // every schedule failing in the same way is no statement about schedules: the world or the harness is broken
-            if per_cb.get(cb).map(|e| e.2.len() <= 1).unwrap_or(true) && !rep.disagreements.keys().any(|k| k.contains("outcome-depends-on-schedule")) {
-                rep.machinery(format!("{} {}: every schedule failed: {}", w.name, cb, err));
-            }
-        }
-        let mut wsum = serde_json::Map::new();
-        for (cb, (n, orders, outs)) in &per_cb {
-            rep.states += n;
-            rep.transitions += n;
-            for i in 0..*orders {
-                rep.nontrivial.insert(h8(format!("{}{}{}{}", w.coin, w.name, cb, i).as_bytes()));
-            }
-            for o in outs {
-                rep.outcomes.insert(h8(format!("{}{}{}{}", w.coin, w.name, cb, o).as_bytes()));
-            }
-            wsum.insert(cb.clone(), json!({"schedules_in_subtrees": n, "distinct_execution_orders": orders, "distinct_outcomes": outs.len().max(1)}));
-        }
-        total_pred += predicted * cbs.len() as f64;
-        bound.insert(format!("{}/{}", w.coin, w.name), json!({"predicted_schedules_per_callback": predicted, "callbacks": cbs, "measured": wsum}));
-        if rep.samples.len() < 3 {
-            rep.sample(json!({"world": w.name, "coin": w.coin, "outputs_per_tx_per_block": w.blocks, "example_schedule": [0, 1, 0, 2], "meaning": "alternative taken at each choice point among the runnable items (sorted by creation order)"}));
-        }
-        let _ = std::fs::remove_dir_all(&wdir);
+        sync_seen += explore_world(&mut rep, &root, &exe, &format!("world{}", wi), w, cbs, 0, None, &mut bound, &mut total_pred);
     }
+    rep.count("wall_ms_item_level_trees", t_phase.elapsed().as_millis() as u64);
+    let t_phase = std::time::Instant::now();
+    sync_part(&mut rep, &root, &exe, sync_seen, &mut bound);
+    rep.count("wall_ms_preemption_bounded_part", t_phase.elapsed().as_millis() as u64);
     rep.count("predicted_total_schedules", total_pred as u64);
     rep.bound = Value::Object(bound);
     VERIFY.store(false, std::sync::atomic::Ordering::SeqCst); // the pool-mode worlds start with a synthetic block 0
+    let t_phase = std::time::Instant::now();
     pool_part(&mut rep, &root);
+    rep.count("wall_ms_pool_mode_and_big_block", t_phase.elapsed().as_millis() as u64);
     rep.assumptions = vec![
-        "closures of the parallel iterators are atomic at item granularity (they contain no synchronisation); interleavings inside one closure are outside this explorer (data races are a compile error in safe Rust; a free-running real-rayon conformance pass is part of the E1 engine)".into(),
+        "item closures are pre-empted only at operations on std::sync::{Mutex, RwLock, atomic::*} of the subject's own sources (intercepted through mc/verif-std) and only up to the stated pre-emption bound; between two such operations a closure touches no memory another closure can touch (safe Rust) - unsafe shared memory, thread_local!, primitives of other crates (parking_lot, once_cell, crossbeam) and std::sync::{mpsc, Condvar, Once*, LazyLock} are NOT scheduling points (covered only by the labelled free-running real-rayon pass of the E1 engine and by Miri in the thorough tier)".into(),
         "adapter chains run per item; flat_map is staged".into(),
     ];
     let _ = std::fs::remove_dir_all(&root);
@@ -563,12 +748,14 @@ fn replay(path: &str) -> i32 {
     let w = WorldSpec { name: case["world"]["name"].as_str().unwrap().into(), coin: coin(case["world"]["coin"].as_str().unwrap()).name, blocks: serde_json::from_value(case["world"]["blocks"].clone()).unwrap() };
     let cb = case["callback"].as_str().unwrap();
     let schedule: Vec<usize> = serde_json::from_value(case["schedule"].clone()).unwrap();
+    let pbound = case["preemption_bound"].as_u64().unwrap_or(0) as usize;
     let chain = build_world(&w);
     let root = scratch();
     let data = root.join("data");
     World::simple(coin(w.coin), &chain.blocks, 0).materialise(&data).unwrap();
     let dump = root.join("dump");
     VERIFY.store(true, std::sync::atomic::Ordering::SeqCst);
+    sched::set_preemption_bound(pbound);
     let (r0, _) = run_once(&data, &dump, w.coin, cb, &[]);
     let base = observe(&r0, &root);
     let (r1, o1) = run_once(&data, &dump, w.coin, cb, &schedule);
@@ -576,7 +763,7 @@ fn replay(path: &str) -> i32 {
     let (a, b) = (observe(&r1, &root), observe(&r2, &root));
     let _ = std::fs::remove_dir_all(&root);
     println!("property: {} signature: {}", doc["property"], doc["signature"]);
-    println!("world {:?} callback {} schedule {:?} execution order {:?}", w.blocks, cb, schedule, o1.order);
+    println!("world {:?} callback {} schedule {:?} (pre-emption bound {}, {} pre-emptions inside closures taken) execution order {:?}", w.blocks, cb, schedule, pbound, o1.preemptions, o1.order);
     if a != b {
         println!("REPLAY-NONDETERMINISTIC");
         return 2;
@@ -694,7 +881,9 @@ fn pool_part(rep: &mut Report, root: &Path) {
         let _ = std::fs::remove_dir_all(&wdir);
     }
     rep.bound["worker_pool_mode"] = Value::Object(summary);
+    let t_big = std::time::Instant::now();
     big_block_part(rep, root);
+    rep.count("wall_ms_big_block", t_big.elapsed().as_millis() as u64);
 }
 
 /// A block with more transactions than any plausible batch size (4100 / 12 300), where the schedule tree cannot be
